@@ -515,6 +515,13 @@ func (c *Check) justifyIndex(f *Func, pa *Path, i int, ev *Event) (bool, string)
 				return true, "index len-k under a length fact"
 			}
 		}
+		// y[i] with i ranging over x under len(x) == len(y)
+		if b, ok := idx.Match("(key $Y)"); ok {
+			lx, ly := mk("len", x), mk("len", b["$Y"])
+			if facts.Holds(mk("==", lx, ly), true) || facts.Holds(mk("==", ly, lx), true) {
+				return true, "index ranging over a collection the path has established to have the same length"
+			}
+		}
 		// i-1 under i != 0 where i is a range key of the same operand
 		if b, ok := idx.Match("(- (key $Y) #1)"); ok && b["$Y"].Eq(x) {
 			z := Fact{T: mk("==", mk("key", x), atom("#0"))}
